@@ -12,7 +12,8 @@ L = 6          # length bound of the bounded brick language in spec/trace/T_C06.
 
 MANIFEST = {
     "category": "model_checking",
-    "text": "TLC evaluates the bounded-language semantics of spec/Bricks.tla (all strings over {a,b} up to length 6) and "
+    "text": "TLC evaluates the bounded-language semantics of spec/Bricks.tla (all strings over {a,b} up to length 6, and over {a} "
+            "up to length 16 for a one-letter batch) and "
             "spec/CharIncl.tla (gamma(certain, possible) over {a,b,c}) on every recorded call of the real "
             "BricksDomain::normalize/widen/merge/append_string_domain and CharacterInclusionDomain::merge/append_string_domain: "
             "normalisation must preserve the bounded language exactly, append/merge/widen must over-approximate; a panic or a "
@@ -80,11 +81,43 @@ def canary(rep, src_file):
                      "denoting the empty set; T_C06 rejected exactly these two" % (ib + 1, evs[ib]["op"], ic + 1, evs[ic]["op"]))
 
 
+def _unary(ev):
+    def ok(v):
+        return all(c == 97 for b in v.get("bricks", []) for w in b["seq"] for c in w)
+    return ev.get("dom") == "bricks" and ok(ev["x"]) and ok(ev["y"])
+
+
+def replay(path, seed, tier):
+    """Re-execute the recorded inputs on the real code and re-validate with TLC (events over {a} also with the
+    unary instance, where they may have been rejected)."""
+    core.build_harness()
+    out = os.path.join(core.BUILD, "traces", "C06_replay")
+    p = core.sh([core.BIN, "replay", "C06", path, "--out", out], cwd=core.ROOT, check=False)
+    if p.returncode != 0:
+        raise ToolError("replay failed: " + p.stdout[-2000:])
+    f = os.path.join(out, "shard00.ndjson")
+    evs = [json.loads(x) for x in core.read_lines(f)]
+    cfgs = ["T_C06.cfg"] + (["T_C06_unary.cfg"] if evs and all(_unary(e) for e in evs) else [])
+    for cfg in cfgs:
+        r = core.tlc(TRACE_SPEC, cfg=cfg, trace=f, workers=1)
+        if r.error:
+            raise ToolError(r.error)
+        if r.bad or r.unconsumed or r.invariant:
+            print("VIOLATION property=C06 replay=%s" % path)
+            core.log("\n".join(r.printed[:6] + r.badlines[:5]) or r.out[-1500:])
+            return 1
+    print("replay accepted: the recorded inputs no longer violate C06")
+    return 0
+
+
 def check(seed, tier):
     rep = Report("C06", seed, tier)
     core.build_harness()
     thorough = tier == "thorough"
-    meta = core.gen("C06", seed, tier, shards=8)
+    meta = core.gen("C06", seed, tier, shards=8 if thorough else 4)
+    # second batch: strings over the one-letter alphabet {a}; validated with length bound 16 (T_C06_unary.cfg), so
+    # repetition bounds beyond the widening threshold (8) are visible in the bounded language
+    umeta = core.gen("C06", seed, tier, shards=2 if thorough else 1, sub="unary")
 
     def model_check():
         sfx = "_thorough" if thorough else ""
@@ -95,15 +128,16 @@ def check(seed, tier):
     with cf.ThreadPoolExecutor(max_workers=1) as ex:
         fut = ex.submit(model_check)
         results = core.validate_traces(rep, TRACE_SPEC, meta["files"], parallel=5, timeout=3000)
+        results += core.validate_traces(rep, TRACE_SPEC, umeta["files"], cfg="T_C06_unary.cfg", parallel=5, timeout=3000)
         fut.result()
     outside = [x for r in results for x in r.printed if x.startswith('<<"OUTSIDE"')]
     if outside:
         raise ToolError("harness emitted events outside the input class of C06: %s" % outside[:3])
     canary(rep, meta["files"][0])
-    rep.traces, rep.events = meta["cases"], meta["events"]
+    rep.traces, rep.events = meta["cases"] + umeta["cases"], meta["events"] + umeta["events"]
     ex = meta["extra"]
     return rep.finish("model_checking", {
-        "distinct_nontrivial": meta["distinct_nontrivial"],
+        "distinct_nontrivial": meta["distinct_nontrivial"] + umeta["distinct_nontrivial"],
         "rule": "one event per call of BricksDomain::normalize/widen/merge/append_string_domain and "
                 "CharacterInclusionDomain::merge/append_string_domain (inputs and result); brick inputs: fixed examples "
                 "(unit tests, documentation, boundary shapes), seeded random brick lists, related pairs (perturbed copies) for "
@@ -114,8 +148,10 @@ def check(seed, tier):
         "exhaustive_part": "character inclusion value pairs (%d of %d)" % (ex.get("ci_pairs", 0), ex.get("ci_values", 0) ** 2),
         "events_per_op": ex.get("events_per_op"), "calls_without_result": ex.get("events_per_op", {}).get("no_result", 0),
         "chain_events": ex.get("chain_events"),
+        "unary_batch": {"events": umeta["events"], "events_per_op": umeta["extra"].get("events_per_op"), "length_bound": 16},
         "mc_runs": rep.cov.get("mc_runs"), "trusted_base": TRUSTED,
-    }, ["bounded concretisation: brick languages are compared on all strings over {a,b} of length <= 6, character inclusion "
+    }, ["bounded concretisation: brick languages are compared on all strings over {a,b} of length <= 6 (a second batch over "
+        "the one-letter alphabet {a} on all strings of length <= 16), character inclusion "
         "operands on all strings over {a,b,c} of length <= 3 (concatenations up to 6)",
         "input class: well-formed bricks (min <= max); normalize and widen are not called on BricksDomain::Top (they unwrap); "
         "the certain set of a character inclusion value is never CharacterSet::Top (unreachable; intersection documents it)",
